@@ -347,9 +347,14 @@ PROP = Prop(
         Layer("enumerated", cases=enum_cases, execute=execute_enum),
         Layer("random", strategy=random_cases, execute=execute_random, budget={"quick": 2000, "thorough": 80000}),
         Layer("tunnel", strategy=tunnel_cases, execute=execute_tunnel, budget={"quick": 40, "thorough": 1200}),
+        Layer("real-backends", strategy=__import__("vf.props.real", fromlist=["upgrade_scenarios"]).upgrade_scenarios,
+              execute=__import__("vf.props.real", fromlist=["execute_upgrade"]).execute_upgrade, budget={"quick": 400, "thorough": 12000}),
     ],
     assumptions=["the peer echoes client writes as b'E'+data, which stands for 'the live connection's data'",
                  "reads are only issued while the harness-side model says bytes are pending (a real read would block otherwise)",
-                 "no leading data is generated for the tunnel proxy's CONNECT (the TLS client speaks first)"],
+                 "no leading data is generated for the tunnel proxy's CONNECT (the TLS client speaks first)",
+                 "layer real-backends: 101 Upgrade over real sockets through httpcore's own backends (plain, TLS, TLS-in-TLS, SOCKS, CONNECT), 0-70,000 bytes "
+                 "right behind the head, then writes and reads on extensions['network_stream']; the peer answers with the swapped-case bytes (independent of how "
+                 "the kernel / TLS cut them); the stream must yield exactly what was sent, the connection must not return to the pool and must be closed"],
     explanation="Bounded exhaustive for small sizes (layer enumerated: exhaustive over cut subsets and max_bytes sequences), sampled beyond.",
 )
